@@ -144,6 +144,8 @@ def run(report, index, tier):
         'emitted text.')
     rule_skeleton(report, index, 'R01.1')
     guard_tokens(report, index, M, 'R01.6')
+    from . import c15
+    c15.rules(report, index)
     from .arrays import array_rule
     array_rule(report, index, M, 'R01.1e',
                bound=11 if tier == 'thorough' else 8)
